@@ -210,6 +210,26 @@ def observe_all(ctx, obj, cases, batch_size=120):
     return obs
 
 
+def sanitizer_pass(ctx, cases, obs):
+    """The accepted cases once more through the ASan+UBSan build (stringconcat sizes its buffer from strlen of the tokens;
+    decodechar/utf8dec read ahead): the projection must be the same and no sanitizer report may appear."""
+    san = private_build(ctx, "asan")
+    idx = [i for i, c in enumerate(cases) if c["decl"]["o"] == "ok" and c["impl"]["o"] == "ok" and obs[i]["o"] == "ok"]
+    by_t = {}
+    for i in idx:
+        by_t.setdefault(cases[i]["targ"], []).append(i)
+    jobs = [(t, ix[a:a + 400]) for t, ix in by_t.items() for a in range(0, len(ix), 400)]
+    n = 0
+    for (t, ix), res in zip(jobs, vlib.pmap(lambda j: run_batch(san, j[0], [cases[i] for i in j[1]]), jobs, workers=8)):
+        for i, o in zip(ix, res):
+            n += 1
+            if o != obs[i]:
+                c = cases[i]
+                ctx.violation("lit:%s:%s:sanitizer" % (c["ctx"], result_prefix(c) or "plain"),
+                              "sanitizer build disagrees on %r (%s): %s" % (lit_bytes(c), c["targ"], json.dumps(o)[:300]), case_view(c, o))
+    ctx.cov["sanitizer_cases"] = ctx.cov.get("sanitizer_cases", 0) + n
+
+
 def nontrivial(case):
     return (case["decl"]["o"] != "ok" or len(case["parts"]) > 1 or
             any(b >= 0x80 or b == 92 for p in case["parts"] for b in p["body"]))
@@ -472,7 +492,7 @@ def load_cases(r):
 
 FAMILIES = ["byte", "utf8", "oct", "hex", "esc", "cat"]
 WHYS = ["utf8", "utf8-beyond", "escape", "escape-range", "prefix-mix", "delimiter", "newline", "empty", "cp-range",
-        "nul-or-cr-in-source", "wide-prefix-mix", "escape-in-unprefixed-part", "multi-char", "multibyte-plain"]
+        "nul-or-cr-in-source", "wide-prefix-mix", "escape-in-unprefixed-part", "multi-char", "multibyte-plain", "ucn-not-modelled"]
 
 
 def spec_devs(cfg):
@@ -496,12 +516,12 @@ def vacuity_guard(ctx, cases, cfg):
     ctx.cov["classes_seen"] = sorted(w for w in whys if w)
 
 
-def private_build(ctx):
+def private_build(ctx, flavour="plain"):
     """vlib.build's cache entry is evicted when somebody else rebuilds after /repo changed; keep our own copy of the binary."""
     import shutil
     for attempt in range(3):
-        src = vlib.build("plain")
-        d = ctx.path("bin")
+        src = vlib.build(flavour)
+        d = ctx.path("bin-" + flavour)
         os.makedirs(d, exist_ok=True)
         try:
             shutil.copy2(os.path.join(src, "cproc-qbe"), os.path.join(d, "cproc-qbe"))
@@ -542,6 +562,7 @@ def run(ctx):
     audit(ctx, cases, 600 if ctx.quick else 6000)
     obs = observe_all(ctx, obj, cases)
     judge(ctx, cases, obs, stats)
+    sanitizer_pass(ctx, cases, obs)
     ctx.validated(len(cases))
     for c, o in list(zip(cases, obs))[::len(cases) // 5 + 1]:
         ctx.sample({"source": lit_bytes(c).decode("latin-1"), "targ": c["targ"], "expected": c["decl"], "observed": o})
@@ -566,6 +587,7 @@ def run(ctx):
     audit(ctx, rnd, 300 if ctx.quick else 3000)
     obs2 = observe_all(ctx, obj, rnd)
     judge(ctx, rnd, obs2, stats)
+    sanitizer_pass(ctx, rnd, obs2)
     ctx.validated(len(rnd))
     ctx.cov["random_literals"] = len(rnd)
     for c, o in list(zip(rnd, obs2))[::len(rnd) // 2 + 1]:
